@@ -212,8 +212,8 @@ PROPS = {
         run=run_c01, replay=replay_olh('twin'), level='proof', assumptions=SHELL_ASSUME,
         model_limits='environment independence of the 39 handlers themselves rests on the extracted envUses/mapRanges tables plus twin replicas (identity, role, witness flag differ; Go map order differs per run), not on per-handler proofs; IAVL determinism is trusted (validated under C09)'),
     'C02': dict(
-        lean_modules=['OLP.Props.C02', 'OLP.Props.C02Facts'], namespaces=['OLP.Props.C02'],
-        required_theorems=['transfer_conserves', 'transfer_nonneg', 'negative_credit_breaks_nonneg', 'send_conserves', 'send_nonneg', 'mismatched_coins_change_total', 'toCoinWithBase_wraps', 'wrap64_exact_iff', 'history_no_creation'],
+        lean_modules=['OLP.Props.C02', 'OLP.Props.C02Facts', 'OLP.Props.C02Funcs'], namespaces=['OLP.Props.C02'],
+        required_theorems=['minusFrom_is_source', 'addTo_is_source', 'coinMinus_spec', 'coinPlus_spec', 'ledger_wrap64_is_source', 'stake_int64Of_is_source', 'checkInRange_spec', 'transfer_conserves', 'transfer_nonneg', 'negative_credit_breaks_nonneg', 'send_conserves', 'send_nonneg', 'mismatched_coins_change_total', 'toCoinWithBase_wraps', 'wrap64_exact_iff', 'history_no_creation'],
         run=run_c02, replay=replay_olh('ledger'), level='proof',
         assumptions=['the value ledger is decoded from the committed tree by the harness (record classes and units in harness/apph/ledger.go DecodeLedger); active network delegations are counted through the delegation pool balance that mirrors them (C12)',
                      'allowed per-block accrual = the DelegationPool attribute of the block_rewards event (C13 bounds it by the schedule); wrapped-currency locks do not occur in the genesis families used here (C15)'],
@@ -252,9 +252,9 @@ PROPS = {
         run=run_c08, replay=replay_olh('crash'), level='proof', assumptions=SHELL_ASSUME + ['a crash is a process death with the OS page cache intact: the data directory is byte-copied at the crash point while the application is still open and the copy is reopened; power-loss durability of goleveldb/IAVL batches is trusted'],
         model_limits='premise VolDerived (volatile memory at block boundaries is a function of the persisted tree) is an application-level discipline: checked statically for the option copies (Prepare vs setupState) and dynamically by the crash twin for everything else'),
     'C09': dict(
-        lean_modules=['OLP.Props.C09', 'OLP.Props.C09Facts'],
+        lean_modules=['OLP.Props.C09', 'OLP.Props.C09Facts', 'OLP.Props.C09Funcs'],
         namespaces=['OLP.Props.C09'],
-        required_theorems=['get_returns_view', 'deleted_reads_absent', 'discard_invisible', 'commit_persists_block',
+        required_theorems=['consumeStrict_is_source', 'consumeAlways_is_source', 'refusal_iff_isEnough', 'getLeft_is_room', 'get_returns_view', 'deleted_reads_absent', 'discard_invisible', 'commit_persists_block',
                            'old_versions_immutable', 'reopen_returns_last_commit', 'erase_reads_same_state',
                            'commit_log_first_write_order', 'gas_refusal', 'gas_refusal_in_session',
                            'get_exactly', 'get_returns_view_or_gas_error', 'get_gas_error_iff', 'no_stale_read',
@@ -279,8 +279,8 @@ PROPS = {
         model_limits='goleveldb durability is exercised (real close/reopen) but process-kill timing inside SaveVersion is IAVL/LevelDB territory and trusted',
     ),
     'C20': dict(
-        lean_modules=['OLP.Props.C20'], namespaces=['OLP.Props.C20'],
-        required_theorems=['executed_tx_is_validated', 'changes_need_valid_signature', 'at_most_one_owner', 'create_needs_absent_name', 'subs_follow_parent', 'sub_expires_with_parent',
+        lean_modules=['OLP.Props.C20', 'OLP.Props.C20Funcs'], namespaces=['OLP.Props.C20'],
+        required_theorems=['blocksFor_is_source', 'calculateExpiry_is_blocksFor', 'calculateRenewal_is_blocksFor', 'expiry_exact_in_source', 'executed_tx_is_validated', 'changes_need_valid_signature', 'at_most_one_owner', 'create_needs_absent_name', 'subs_follow_parent', 'sub_expires_with_parent',
                            'pending_sub_deleted_by_purchase', 
                            'pending_sub_follows_renewal', 'failed_tx_changes_nothing', 'changes_need_owner_or_purchase',
                            'changes_need_root_owner', 'changes_need_root_owner_reachable', 'commits_are_invisible',
@@ -347,8 +347,8 @@ PROPS = {
         ],
         model_limits='Validate/fee handling of the five transaction kinds, the Ethereum side (whether the external transaction exists and is final: the witnesses\' off-chain jobs) and the job store are outside the model; a negative VoteIndex panics in AddVote but is refused by Validate, which DeliverTx now runs (modelled as Res.panic, never sent by this engine: C18); malformed payloads (undecodable, contract creation, selector missing, wrong receiver) are refused since 11ae9db and are part of the generated histories; the supply cap is checked at submission only, not at mint; an ERC20 redeem addressed to the ERC contract can never be finalized (burnERC20Tokens looks the token up by tx.To()) and a failing ERC20 tracker is never archived — modelled as in the code, liveness is not part of the property'),
     'C11': dict(
-        lean_modules=['OLP.Props.C11'], namespaces=['OLP.Props.C11'],
-        required_theorems=['frozen_blocks_all_three', 'frozen_owner_cannot_withdraw', 'pending_allegation_blocks_unstake', 'withdraw_needs_bounded',
+        lean_modules=['OLP.Props.C11', 'OLP.Props.C11Funcs'], namespaces=['OLP.Props.C11'],
+        required_theorems=['powerOf_is_source', 'handleStake_record_is_source', 'frozen_blocks_all_three', 'frozen_owner_cannot_withdraw', 'pending_allegation_blocks_unstake', 'withdraw_needs_bounded',
                            'bounded_changes_only_by_own_withdraw', 'endBlock_credits_current_height', 'schedule_only_from_unstake',
                            'unlock_exactly_at_maturity', 'conservation', 'bounded_nonneg', 'withdrawn_le_staked_minus_penalty',
                            'paid_out_le_paid_in_minus_penalty', 'int64_guard_is_necessary', 'tot_eq_sum_vd',
@@ -366,8 +366,8 @@ PROPS = {
         ],
         model_limits='the frozen-owner guard of WITHDRAW goes over the validator records the store iteration enumerates (records that existed at the last commit; a record created in the running block cannot be frozen, STAKE refuses a frozen validator); fee handling and every other balance movement are environment (Tx.credit)'),
     'C13': dict(
-        lean_modules=['OLP.Props.C13', 'OLP.Props.C13Arith'], namespaces=['OLP.Props.C13'],
-        required_theorems=['consumed_le_pulled', 'credited_le_consumed', 'credited_le_pulled', 'absent_not_credited', 'consumed_eq_recorded',
+        lean_modules=['OLP.Props.C13', 'OLP.Props.C13Arith', 'OLP.Props.C13Funcs'], namespaces=['OLP.Props.C13'],
+        required_theorems=['rewardFor_is_source', 'delegSplit_amounts_are_source', 'delegSplit_credits_are_source', 'recalc_amount_is_source', 'consumed_le_pulled', 'credited_le_consumed', 'credited_le_pulled', 'absent_not_credited', 'consumed_eq_recorded',
                            'block_keeps_nonneg', 'chunk_matures_once', 'withdraw_le_matured', 'validator_withdraw_le_matured',
                            'withdraw_never_raises_matured', 'wrapped_withdraw_raises_matured',
                            'forecast_zero_iff_schedule_over', 'pulled_le_year_left', 'burnout_capped_by_pool', 'till_changes_only_at_cycle_end',
@@ -385,8 +385,8 @@ PROPS = {
         ],
         model_limits='handleBlockRewards is modelled from PullRewards to ConsumeRewards on decoded records (early error returns for a missing currency / undecodable power / missing pool list are not reachable from a valid genesis and not modelled); the calculator cache is private to the implementation, the driver threads its own copy per replica; the amount the implementation pulls is read from the application\'s own calculator object (cache included) by a PullRewards call on a throw-away State over the committed tree immediately before BeginBlock (same height, same records, so BeginBlock\'s own call returns the same amount and the cache is left as BeginBlock would leave it; an unprobed, never-restarted third replica checks this in every 5th history); chunk-matures-once is proved for chains without interval records (the running chain never writes one), interval records from an exported-state genesis are covered by the correspondence only'),
     'C17': dict(
-        lean_modules=['OLP.Props.C17'], namespaces=['OLP.Props.C17'],
-        required_theorems=['one_ledger', 'one_ledger_history', 'step_keeps_cache_empty', 'stale_cache_breaks_one_ledger',
+        lean_modules=['OLP.Props.C17', 'OLP.Props.C17Funcs'], namespaces=['OLP.Props.C17'],
+        required_theorems=['buyGas_cost_is_source', 'gasFinal_is_source', 'refund_credit_is_source', 'net_charge_is_gas_used_times_price', 'one_ledger', 'one_ledger_history', 'step_keeps_cache_empty', 'stale_cache_breaks_one_ledger',
                            'sender_debit_exact', 'feepool_credit_exact', 'gas_used_within_limit', 'recipient_credit_exact',
                            'created_contract_credit_exact', 'bystander_untouched', 'nonce_plus_one', 'precheck_failure_noop',
                            'checktx_changes_nothing', 'olvm_value_accounting', 'olvm_conserves_value', 'olvm_total_never_grows',
@@ -418,8 +418,8 @@ PROPS = {
         ],
         model_limits='the library primitives (ed25519 / secp256k1 / go-ethereum / btcec point parsing, address hashes, signature verification, EIP-155 sender recovery) are uninterpreted parameters answered by the real libraries in the correspondence run; that a signature accepted for one message is accepted for no other message under the same key (hypothesis MessageBinding of accepted_signatures_bind_message / _transaction, the single-signature consequence of the unforgeability hypothesis of tamper_rejected) is not provable in the model and is VALIDATED per algorithm on every run by the sigm monitor accepted-signature-survives-message-change:<alg>:<position class> (message changed inside the first 32 bytes, at and after byte 32, in the last byte, one byte appended, one dropped) and at application level by the mutant classes on originals signed with ED25519, SECP256K1 and BTCEC accounts (ETHSECP cannot sign a transaction: go-ethereum verifies 32-byte digests only); the BTCEC oracle of sigm is defined independently of the handler (ECDSA over SHA-256(msg) with btcec directly), signatures are produced by two kinds of client (libraries as specified / the repo handlers); the JSON *decoder* is not modelled (unser is a proof device; acceptance of non-canonical encodings is C05); Go < 1.22 escapes \\b and \\f as \\u0008 / \\u000c, so nodes built with different toolchains would disagree on RawBytes() of such memos (outside the model); internal transactions created by block hooks (ExpireProposals / FinalizeProposals) do not pass Validate and are outside this property; OLVM: what remains outside the full-strength statements is (a) the cryptography itself (EthLib.sender is a parameter; go-ethereum enforces low-s) and (b) that the public key named in the signature entry is pinned through its address only (olvm_signer_key_through_address)'),
     'C19': dict(
-        lean_modules=['OLP.Props.C19', 'OLP.Props.C19Arith'], namespaces=['OLP.Props.C19'],
-        required_theorems=['verdict_iff_threshold', 'required_is_ceiling', 'votes_are_of_currently_active', 'verdict_from_active_votes_alone',
+        lean_modules=['OLP.Props.C19', 'OLP.Props.C19Arith', 'OLP.Props.C19Funcs'], namespaces=['OLP.Props.C19'],
+        required_theorems=['bounty_is_source', 'source_bounty_le_penalty', 'verdict_iff_threshold', 'required_is_ceiling', 'votes_are_of_currently_active', 'verdict_from_active_votes_alone',
                            'tally_follows_verdict', 'guilty_only_by_verdict', 'no_active_no_verdict', 'tracker_is_a_set',
                            'one_vote_per_validator', 'second_vote_rejected', 'only_active_can_allege_or_vote',
                            'guilty_frozen_until_release', 'frozen_cannot_stake_unstake_withdraw', 'frozen_owner_cannot_withdraw',
@@ -437,8 +437,8 @@ PROPS = {
         ],
         model_limits='the monitor checks "drops out of the validator set" on the application\'s own election (update list and status records) at every height and, for validators that keep a record, on the simulated Tendermint set after 6 consecutive blocks IN WHICH SOMEBODY IS ELECTED: with nobody elected the application keeps the last set (c5836bc, Tendermint cannot run with an empty set), so a convicted last validator stays in Tendermint\'s set until somebody else qualifies (by design). Errors of balance.AddToAddress / delayHandleUnstake inside the tally (the `continue` paths after them) are not modelled (never observed); the refused-debit branch of the slash (MinusFromAddress is all-or-nothing since 7abde80, charged to the current stake address since ebb3d1d) is modelled and proved but not reached by generated histories (the staking handlers keep the three records equal). The nine regression scenarios of the repaired defects (corpus/C19, harness/apph/alleg_script.go) run first in every check and must end in the repaired outcome without any monitor signature.'),
     'C14': dict(
-        lean_modules=['OLP.Props.C14', 'OLP.Props.C14Arith'], namespaces=['OLP.Props.C14'],
-        required_theorems=['wf_init', 'wf_reachable', 'active_copy_is_exclusive', 'stage_monotone', 'stage_monotone_history',
+        lean_modules=['OLP.Props.C14', 'OLP.Props.C14Arith', 'OLP.Props.C14Funcs'], namespaces=['OLP.Props.C14'],
+        required_theorems=['pct_is_source', 'source_share_le_total', 'wf_init', 'wf_reachable', 'active_copy_is_exclusive', 'stage_monotone', 'stage_monotone_history',
                            'voting_starts_only_at_goal_before_deadline', 'expire_only_after_deadline', 'endblock_expiry_only_after_deadline',
                            'outcome_follows_snapshot_votes', 'open_vote_means_undecided', 'snapshot_fixed_when_voting_begins',
                            'config_applied_only_for_passed_proposal', 'config_applied_at_most_once',
